@@ -131,8 +131,11 @@ theorem r210_c2_eq (v : V210) :
   | cons t ts ih =>
     simp only [List.flatMap_cons, List.filter_cons, ih]
     cases h5 : t.has50 <;> cases h2 : t.has52 <;> simp
+/-- the documented cap of ten repetitions is what the regenerated constant says -/
+theorem cap210 : numConst 210 "MAX_REPETITIVE_SEQUENCES" = 10 := by decide
+theorem cap204 : numConst 204 "MAX_SEQUENCE_B_OCCURRENCES" = 10 := by decide
 theorem r210_c1_iff (v : V210) : r210_c1 v = some "T10" ↔ v.txs.length > 10 := by
-  unfold r210_c1; split <;> simp_all
+  unfold r210_c1; rw [cap210]; split <;> simp_all
 
 /-! ### MT920 -/
 theorem validate920_eq (v : V920) :
@@ -202,7 +205,7 @@ theorem validate204_eq (v : V204) :
   simp only [RuleSet.validate, rs204, List.map, runStages]
   cases h1 : r204_c1 v <;> cases h2 : r204_c2 v <;> cases h3 : r204_c3 v <;> simp_all
 theorem r204_c3_iff (v : V204) : r204_c3 v = some "T10" ↔ v.txs.length > 10 := by
-  unfold r204_c3; split <;> simp_all
+  unfold r204_c3; rw [cap204]; split <;> simp_all
 
 /-! ### MT200 -/
 theorem validate200_eq (v : V200) : rs200.validate v = r200_t80 v := by
@@ -223,7 +226,7 @@ theorem ruleless_types : (Generated.Stages.table.filter (fun p => p.2.isEmpty)).
   decide
 /-- the types whose rules are NOT modelled yet (covered by the oracle streams of C13 only) -/
 theorem unmodelled_types :
-    (Generated.Stages.table.filter (fun p => !p.2.isEmpty && !(modelled.any (·.1 == p.1)))).map (·.1) = [101, 103, 104, 107] := by
+    (Generated.Stages.table.filter (fun p => !p.2.isEmpty && !(modelled.any (·.1 == p.1)))).map (·.1) = [101, 104, 107] := by
   decide
 
 /-- Non-vacuity: concrete abstract messages on which rules fire. -/
